@@ -266,6 +266,17 @@ fn judge_setter_with_offset(rec: &mut Rec, i: i128, off: i32, doy: u32) {
     let same_year = fields(i).year == fields(local).year;
     rec.bin(if same_year { "setdoy-offset/local-year=utc-year" } else { "setdoy-offset/local-year≠utc-year" });
     rec.nontrivial(hash_i128s(&[i, off as i128, doy as i128, 0x02]));
+    // the getters this property owns, on the value as it is read under its offset (absolute, any offset)
+    if representable(local - D) && representable(local + D) && representable(i - D) && representable(i + D) {
+        if let Some((v, _)) = sane_value(i, off) {
+            let lday = local.div_euclid(D) as i64;
+            match trap(|| (v.weekday() as u32, v.day_of_year())) {
+                Ok(g) if g == (cal::weekday_sun0(lday), cal::day_of_year(lday)) => {}
+                Ok(g) => rec.violation(format!("C02|getters-with-offset|DateTime::weekday/day_of_year|wrong-value|{}", if off.unsigned_abs() > 86_399 { "offset-of-a-day-or-more" } else { "offset-within-a-day" }), || json!({"utc": show(i), "offset": off, "local": show(local), "(weekday, day_of_year)": format!("{:?}", g), "model": format!("{:?}", (cal::weekday_sun0(lday), cal::day_of_year(lday)))})),
+                Err(p) => rec.violation(format!("C02|getters-with-offset|DateTime::weekday/day_of_year|panic|{},{}", p.class, p.site()), || json!({"utc": show(i), "offset": off, "panic": p.to_json()})),
+            }
+        }
+    }
     let exp = super::c09::model_set(local, 3, doy as i64);
     if let Ok(l) = exp {
         if !(representable(l + D) && representable(l - D) && representable(l - off as i128 * NS - D) && representable(l - off as i128 * NS + D)) {
@@ -438,7 +449,9 @@ pub fn run(ctx: &Ctx) -> PropResult {
             1 => ny + rng.range_i128(-3 * 86_400, 3 * 86_400) * NS + rng.range_i128(0, NS - 1),
             _ => super::c09::gen_c09_instant(rng),
         };
-        let off = super::c09::gen_c09_offset(rng, i);
+        // (one case in ten with an Offset::Fixed of a day or more: the statement is about the value's own day and
+        // year, whatever offset defines it)
+        let off = if rng.chance(1, 10) { crate::model::instant::gen_offset_any(rng) } else { super::c09::gen_c09_offset(rng, i) };
         let doy = match rng.below(4) {
             0 => *rng.pick(&[0u32, 1, 59, 60, 61, 365, 366, 367]),
             _ => 1 + rng.below(366) as u32,
